@@ -54,6 +54,7 @@ type gen struct {
 	names  map[string]bool
 	scopes [][]variable
 	fns    []fnSig
+	late   []string // function declarations emitted after everything else
 	hasU   bool // uniform struct available
 	hasBuf bool
 	hasPriv, hasGrid,
@@ -613,7 +614,15 @@ func (g *gen) stmt(ind, depth int) {
 		}
 		g.line(ind+1, "continuing {")
 		g.push()
-		g.line(ind+2, "%s = %s + 1;", c, c)
+		if g.chance(40) {
+			// the step is computed by a helper that is declared at the END of the module and
+			// called from nowhere else (forward reference out of a continuing block)
+			nm := g.fresh("advance")
+			g.late = append(g.late, fmt.Sprintf("fn %s(v: i32, by: i32) -> i32 {\n    return v + by;\n}\n", nm))
+			g.line(ind+2, "%s = %s(%s, 1);", c, nm, c)
+		} else {
+			g.line(ind+2, "%s = %s + 1;", c, c)
+		}
 		if g.chance(60) {
 			g.contStmt(ind + 2)
 		}
@@ -868,6 +877,10 @@ func Program(t *rapid.T) string {
 		g.line(1, "return %s;", g.vecExpr(ty{"f32", 4}, 2))
 		g.pop()
 		g.line(0, "}")
+	}
+	for _, f := range g.late {
+		g.line(0, "")
+		g.b.WriteString(f)
 	}
 	return g.b.String()
 }
